@@ -395,7 +395,7 @@ func writeRfc6184Item(t *Toks, it rfc6184Item) {
 	case 's':
 		t.Tok("s").Bytes(it.nals[0])
 	case 'a':
-		t.Tok("a").Nat(int(rfc6184Encode(it)[0][0])).BytesList(it.nals)
+		t.Tok("a").Nat(int(rfc6184Encode(it)[0][0])).Bool(it.hdr == 0).BytesList(it.nals)
 	default:
 		t.Tok("f").Nat(int(it.hdr)).BytesList(it.chunks)
 	}
